@@ -45,8 +45,17 @@ def rule_delegate(ctx):
     # Deserialize
     b = facts.body(de[0])
     t = norm(b.resolve_local(0))
-    ok = t[0] == "call" and t[1].endswith("Deserializer::deserialize_str") and t[2][0] == ("arg", 1) and t[2][1][0] == "agg" and len(list(b.calls())) == 1
-    vis_adt = t[2][1][1][1] if ok else None
+    ok = t[0] == "call" and t[1].endswith("Deserializer::deserialize_str") and t[2][0] == ("arg", 1) and len(list(b.calls())) == 1
+    vis_adt = None
+    if ok and t[2][1][0] == "agg":
+        vis_adt = t[2][1][1][1]
+    elif ok:
+        # the visitor value may be a constant (`PurlVisitor::<T>::NEW`): its type is the call's second generic argument
+        cargs = [tt["callee"].get("args", []) for _, tt in b.calls()][0]
+        vty = cargs[-1] if cargs else ""
+        cand = [a for a in facts.adts if vty.split("<")[0] == a]
+        vis_adt = cand[0] if len(cand) == 1 else None
+        ok = vis_adt is not None
     ctx.ob("DELEGATE", "deserialize = deserializer.deserialize_str(visitor)", ok and not b.back_edges(), fn=de[0], site=fn_site(facts, de[0]), detail=nshow(t)[:160])
     if not ok:
         return
@@ -73,6 +82,15 @@ def rule_delegate(ctx):
             ct = norm(facts.body(conv[1]).resolve_local(0))
             okconv = ct[0] == "call" and ct[1].endswith("de::Error::custom") and ct[2] == (("arg", 2),)
         ok = oksrc and okconv
+    if not ok and t[0] == "phi" and len(t[1]) == 2:
+        # the same as an explicit match: Ok(p) => Ok(p), Err(e) => Err(E::custom(e))
+        oks_ = [m for m in t[1] if m[0] == "agg" and m[1][1:3] == ("std::result::Result", "Ok") and m[2][0][0] == "ok"]
+        ers_ = [m for m in t[1] if m[0] == "agg" and m[1][1:3] == ("std::result::Result", "Err") and m[2][0][0] == "call" and m[2][0][1].endswith("de::Error::custom") and len(m[2][0][2]) == 1 and m[2][0][2][0][0] == "err"]
+        if len(oks_) == 1 and len(ers_) == 1:
+            src = oks_[0][2][0][1]
+            parse_call = [tt for _, tt in b.calls() if callee_name(tt["callee"]) == "core::str::<impl str>::parse"]
+            oksrc = src[0] == "call" and src[2] == (("arg", 2),) and (src[1] == fromstr or (src[1] == "core::str::<impl str>::parse" and len(parse_call) == 1 and parse_call[0]["callee"].get("args", [""])[0].startswith("GenericPurl<")))
+            ok = oksrc and ers_[0][2][0][2][0][1] == src
     ctx.ob("DELEGATE", "visit_str(v) = GenericPurl::from_str(v).map_err(Error::custom)  [input passed through unmodified]", ok and len(list(b.calls())) == 2 and not b.back_edges(), fn=vs[0], site=fn_site(facts, vs[0]), detail=nshow(t)[:200])
     # no serde attribute-derived impl on GenericPurl / PurlParts (would serialise the fields instead)
     derived = [im for im in facts.impls if im.get("self_adt") in ("GenericPurl", "PurlParts", "qualifiers::Qualifiers") and ("Serialize" in (im.get("trait") or "") or "Deserialize" in (im.get("trait") or "")) and im["derived"]]
